@@ -38,7 +38,7 @@ LEAF_CLASSES = {
     "applied": {"AppliedFunction", "SymFunction", "Application", "Expr", "Basic"},  # f(t) of a library Function: carries a dimension
     "indexedbase": {"IndexedSymbol", "DimensionSymbol", "Expr", "Basic"},
 }
-KNOWN_CLASSES |= set().union(*NODE_CLASSES.values()) | set().union(*LEAF_CLASSES.values())
+KNOWN_CLASSES |= set().union(*NODE_CLASSES.values()) | set().union(*LEAF_CLASSES.values()) | {"type"}
 
 
 @dataclass(eq=False)
@@ -158,6 +158,8 @@ class CollectReader(GateReader):
             return LEAF_CLASSES[i["kind"]]
         if isinstance(v, tuple) and v and v[0] == "indexed-element":
             return NODE_CLASSES["Indexed"]
+        if isinstance(v, tuple) and v and v[0] in ("func", "class"):
+            return {"type"}
         return super().classes_of(v)
 
     def class_value_names(self, v, n) -> list:
@@ -190,6 +192,8 @@ class CollectReader(GateReader):
         i = self.leaves.of(base)
         if i is not None and attr in i:
             return i[attr]
+        if i is not None and i.get("kind") == "applied" and attr == "func":
+            return ("func", base.val.split("(")[0])
         if isinstance(base, tuple) and base and base[0] == "indexed-element" and attr == "base":
             return base[1]
         if isinstance(base, (T, int)) and attr in ("is_Float", ):
@@ -215,6 +219,10 @@ class CollectReader(GateReader):
         return super().hook_binop(o, l, r, n)
 
     def any_dimension_value(self, v, n) -> bool:
+        if isinstance(v, tuple) and v and v[0] == "indexed-element":
+            return False
+        if isinstance(v, Node):
+            return False
         if isinstance(v, (int, T)) and not isinstance(v, bool):
             return is_zero_term(self.leaves.value(v) if isinstance(v, T) else v)
         return super().any_dimension_value(v, n)
@@ -268,9 +276,7 @@ class CollectReader(GateReader):
                 return v.op in ("num", "pi") or (v.op == "neg" and v.args[0].op == "num")
             return isinstance(v, int) and not isinstance(v, bool)
         if name in ("Abs", "abs") and len(n.args) == 1:
-            v = self.ev(n.args[0], env, fns)
-            if isinstance(v, (T, int)) and not isinstance(v, bool):
-                return app("Abs", v if isinstance(v, T) else num(v))
+            return app("Abs", self.scalar(self.ev(n.args[0], env, fns), n))
         if name == "Quantity" and n.args and name not in self.functions:
             fac = self.ev(n.args[0], env, fns)
             kw_ = {k.arg: self.ev(k.value, env, fns) for k in n.keywords if k.arg}
@@ -328,7 +334,7 @@ class CollectReader(GateReader):
         return super().hook_call(n, env, fns)
 
     def construct(self, fv, args: list, n):
-        args = [a if isinstance(a, T) else (num(a) if isinstance(a, int) and not isinstance(a, bool) else self.fail(n, "constructor argument")) for a in args]
+        args = [self.scalar(a, n) for a in args]
         if fv[0] == "func":
             return app(fv[1], *args)
         cls = fv[1]
@@ -436,10 +442,26 @@ def _exact(t):
     return t
 
 
+def canon(t):
+    """Min/Max applications as SymPy keeps them: flattened, without the identity of the operation, duplicates removed, canonical order"""
+    if isinstance(t, int):
+        return num(t)
+    if t.op in ("num", "var", "fun", "pi"):
+        return t
+    args = [canon(a) for a in t.args]
+    if t.op == "app" and t.val in ("Min", "Max"):
+        args = [a for a in args if not (a.op == "var" and a.val == f"{t.val}()")]
+        if not args:
+            return var(f"{t.val}()")
+        return minmax_term(t.val, args)
+    if t.op == "app" and t.val == "diff" and args and args[0].op == "app" and args[0].val == "diff":
+        return canon(app("diff", *args[0].args, *args[1:]))  # repeated differentiation is one derivative with all its variables
+    return T(t.op, tuple(args), t.val)
+
+
 def same_value(a, b) -> bool:
     """value equality of two factor terms: exact normal form where there is one, otherwise the same operator over value-equal arguments"""
-    a = num(a) if isinstance(a, int) else a
-    b = num(b) if isinstance(b, int) else b
+    a, b = canon(a), canon(b)
     if repr(a) == repr(b):
         return True
     try:
@@ -449,3 +471,100 @@ def same_value(a, b) -> bool:
     if a.op == b.op and a.val == b.val and len(a.args) == len(b.args) and a.op in ("pow", "app", "div"):
         return all(same_value(x, y) for x, y in zip(a.args, b.args))
     return repr(normalize_safe(a)) == repr(normalize_safe(b))
+
+
+# ---------------------------------------------------------------------------------------------- C06: symbolic inference
+
+
+def tree_term(tree, leaves: Leaves):
+    """the expression a tree stands for, as a term over its leaves"""
+    if isinstance(tree, int):
+        return num(tree)
+    if isinstance(tree, T):
+        return tree
+    if isinstance(tree, tuple) and tree and tree[0] == "indexed-element":
+        return app("Indexed", tree[1], num(tree[2]))
+    args = [tree_term(a, leaves) if not isinstance(a, list) else app("pair", *[tree_term(x, leaves) for x in a]) for a in tree.args]
+    if tree.cls == "Mul":
+        v = num(1)
+        for a in args:
+            v = op("mul", v, a)
+        return v
+    if tree.cls == "Add":
+        v = num(0)
+        for a in args:
+            v = op("add", v, a)
+        return v
+    if tree.cls == "Pow":
+        return op("pow", args[0], args[1])
+    if tree.cls in ("Min", "Max"):
+        return minmax_term(tree.cls, args)
+    if tree.cls == "Abs":
+        return app("Abs", args[0])
+    if tree.cls == "Function":
+        return app(tree.name, *args)
+    if tree.cls == "Derivative":
+        return app("diff", *args)
+    raise AnalysisError(f"tree_term: {tree.cls}")
+
+
+def spec_expression(tree, leaves: Leaves):
+    """Dim | None (= any) inferred for an expression over dimensioned symbols, functions, quantities and numbers - or Refused (property C06)"""
+    if isinstance(tree, int):
+        return None if tree == 0 else Dim()
+    if isinstance(tree, tuple) and tree and tree[0] == "indexed-element":
+        return leaves.of(tree[1])["dimension"]
+    if isinstance(tree, T):
+        i = leaves.of(tree)
+        if i is None:
+            return None if is_zero_term(tree) else Dim()
+        if i["kind"] == "quantity":
+            return None if is_zero_term(leaves.value(tree)) else i["dimension"]
+        if "dimension" in i:
+            return i["dimension"]
+        raise AnalysisError("spec: leaf outside the property's domain")
+    if tree.cls == "Derivative":
+        d = spec_expression(tree.args[0], leaves)
+        for v_, n_ in tree.args[1:]:
+            vd = spec_expression(v_, leaves)
+            if d is None or vd is None:
+                raise AnalysisError("spec: derivative of / by a zero")
+            for _ in range(n_):
+                d = d.mul(vd, -1)
+        return d
+    parts = [spec_expression(a, leaves) for a in tree.args]
+    if any(isinstance(p_, tuple) for p_ in parts):
+        raise AnalysisError("spec: symbolic power of a dimension below another node")
+    if tree.cls == "Mul":
+        if any(p_ is None for p_ in parts):
+            return None
+        d = Dim()
+        for p_ in parts:
+            d = d.mul(p_)
+        return d
+    if tree.cls == "Pow":
+        bd, ed = parts
+        ei = leaves.of(tree.args[1]) if isinstance(tree.args[1], T) else None
+        if ei is not None and ei.get("kind") == "quantity" and not ei["dimension"].dimensionless():
+            raise Refused("the exponent is a dimensional quantity")  # also when its value is zero: the property excuses zero TERMS of sums only
+        if ed is not None and not ed.dimensionless():
+            raise Refused("the exponent is dimensional")
+        if bd is None:
+            return None
+        e = normalize_safe(_exact(leaves.value(tree_term(tree.args[1], leaves))))
+        try:
+            fr = Fraction(repr(e))
+        except (ValueError, ZeroDivisionError):
+            return bd if bd.dimensionless() else ("dim-power", bd, repr(e))
+        return Dim(tuple((b, x * fr) for b, x in bd.exps if x * fr != 0))
+    if tree.cls in ("Add", "Min", "Max"):
+        dims = [p_ for p_ in parts if p_ is not None]
+        for d in dims[1:]:
+            if d.exps != dims[0].exps:
+                raise Refused("a sum or min/max combines inequivalent dimensions")
+        return dims[0] if dims else None
+    if tree.cls == "Abs":
+        return parts[0]
+    if tree.cls == "Function":
+        return Dim()
+    raise AnalysisError(f"spec: node {tree.cls}")
